@@ -124,6 +124,20 @@ Proof.
   destruct (contains 58 u), (valid_utf8 a), (valid_utf8 r), (valid_utf8 t); reflexivity.
 Qed.
 
+(* the order of the effects the models assume, as it stands in the source (kind callseq):
+   saveFile = MkdirAll, Ingest, [deferred Remove], Rename; Ingest = CreateTemp, [deferred
+   Close, Remove], Chmod, Copy; every operation takes its lock first, releases it by a
+   deferred call, and a writer saves inside it *)
+Lemma call_orders :
+  calls_saveFile = [b "os.MkdirAll"; b "ioutil.Ingest"; b "os.Remove"; b "os.Rename"] /\
+  calls_Ingest = [b "os.CreateTemp"; b "tempFile.Close"; b "os.Remove"; b "tempFile.Chmod"; b "io.Copy"] /\
+  calls_PutCredential = [b "cfg.rwLock.Lock"; b "cfg.rwLock.Unlock"; b "json.Marshal"; b "cfg.saveFile"] /\
+  calls_DeleteCredential = [b "cfg.rwLock.Lock"; b "cfg.rwLock.Unlock"; b "cfg.saveFile"] /\
+  calls_SetCredentialsStore = [b "cfg.rwLock.Lock"; b "cfg.rwLock.Unlock"; b "cfg.saveFile"] /\
+  calls_GetCredential = [b "cfg.rwLock.RLock"; b "cfg.rwLock.RUnlock"; b "json.Unmarshal"] /\
+  calls_IsAuthConfigured = [b "cfg.rwLock.RLock"; b "cfg.rwLock.RUnlock"].
+Proof. repeat split; reflexivity. Qed.
+
 Lemma to_hostname_spec addr :
   to_hostname addr = cut_before slash (trim_prefix (b "https://") (trim_prefix (b "http://") addr)).
 Proof. reflexivity. Qed.
